@@ -28,6 +28,9 @@ pub enum Ty {
     /// `&v[i]` bound to a local: the element of an opaque vector, seen as its index (opaque method calls on it
     /// get the index as their first argument, exactly as calls on `v[i]` itself)
     IdxRef,
+    /// an abstract object (a file offset, a memory ordering, a mapping handle): a value of the named Coq type
+    /// (a type parameter of the kernel); only passed around
+    Abs(&'static str),
     Unknown,
 }
 
@@ -171,6 +174,9 @@ pub struct Spec {
     /// closure kernel: of the ENCLOSING function), "param#i" = the i-th parameter of the enclosing function,
     /// "closure#i" = the `let` that binds the i-th closure of the function
     pub positions: Vec<(&'static str, &'static str)>,
+    /// when several functions of the name exist (cfg variants): the one whose own / impl attributes contain
+    /// (true) / do not contain (false) the string
+    pub attr_filter: Option<(&'static str, bool)>,
 }
 
 impl Spec {
@@ -253,7 +259,7 @@ fn base(module: &'static str, group: &'static str, file: &'static str, name: &'s
         recv_groups: vec![], id_methods: vec![], skip_as: vec![], rewrite: vec![], ctors: vec![], argsel: vec![],
         skip_loops: false, ret_wrap: None, note: "",
         type_params: vec![], recv_arg: vec![], break_value: false, loop_cond: false, effects_ret: false, with_locals: vec![],
-        ptr_checked: false, closure_params: vec![], after_loop: None, skip_lets: vec![], iter_fold: None, via: None, positions: vec![],
+        ptr_checked: false, closure_params: vec![], after_loop: None, skip_lets: vec![], iter_fold: None, via: None, positions: vec![], attr_filter: None,
     }
 }
 
@@ -445,6 +451,117 @@ pub fn table() -> Vec<Spec> {
         t.push(s);
     }
 
+    {
+        // ---- w1c: what an accessor is BUILT from and how it accesses memory.
+        // "view" kernels keep the (pointer, bitmap slice, mapping handle) arguments of the constructor calls: the
+        // handle `self.mmap` / `slice.mmap` is an `option unit` parameter (a literal `None` in its place is
+        // `@None unit`), the bitmap slice an abstract BM (`slice_at` opaque), so that a dropped handle or a bitmap
+        // view at another offset than the pointer changes the generated term.
+        let vfile = "src/volatile_memory.rs";
+        let vk = |name: &'static str, f: &'static str, loc: Loc| base("Accessors", "Accessors", vfile, name, f, loc);
+        let mm = |pat: &'static str, p: &'static str| ext(pat, p, "option unit", opt(Ty::Unit));
+        let bmx = |pat: &'static str, p: &'static str| ext(pat, p, "BM", Ty::Abs("BM"));
+        let slice_at = || ofn("slice_at", "slice_at", "N -> BM", Ty::Abs("BM"));
+        let addr_u = || ex("self . addr as usize", "addr", Ty::Int(64));
+        let addr_p = || ex("self . addr", "addr", Ty::Ptr);
+        let vsl = |f: &'static str| Loc::Impl { ty: "VolatileSlice", tr: None, f };
+        // VolatileSlice::{offset, subslice, split_at}
+        let mut s = vk("vs_offset_view", "offset", vsl("offset"));
+        s.type_params = vec!["BM"];
+        s.extra = vec![addr_u(), addr_p(), ex("self . size", "size", Ty::Int(64)), mm("self . mmap", "mmap")];
+        s.fns = vec![slice_at()];
+        s.ctors = vec![("with_bitmap", vec![0, 2, 3])];
+        t.push(s);
+        let mut s = vk("vs_subslice_view", "subslice", vsl("subslice"));
+        s.type_params = vec!["BM", "E"];
+        s.extra = vec![addr_p(), mm("self . mmap", "mmap")];
+        s.fns = vec![slice_at(), ofn("compute_end_offset", "compute_end_offset", "N -> N -> rres E", Ty::Res(Box::new(Ty::Abs("E"))))];
+        s.ctors = vec![("with_bitmap", vec![0, 2, 3])];
+        t.push(s);
+        let mut s = vk("vs_split_at_view", "split_at", vsl("split_at"));
+        s.type_params = vec!["BM"];
+        s.extra = vec![addr_u(), addr_p(), ex("self . size", "size", Ty::Int(64)), mm("self . mmap", "mmap"), bmx("self . bitmap . clone ()", "bm")];
+        s.fns = vec![slice_at()];
+        s.ctors = vec![("with_bitmap", vec![0, 2, 3])];
+        t.push(s);
+        // VolatileMemory::{get_ref, get_array_ref}: the accessor is built from the fields of the slice get_slice returned
+        let slice_fields = || vec![ex("slice . addr", "sl_addr", Ty::Ptr), bmx("slice . bitmap", "sl_bm"), mm("slice . mmap", "sl_mmap"),
+                                   ex("slice . len ()", "sl_len", Ty::Int(64)), ex("size_of :: < T > ()", "size_t", Ty::Int(64))];
+        let get_slice = || ofn("get_slice", "get_slice", "N -> N -> rres unit", Ty::Res(Box::new(Ty::Unit)));
+        let mut s = vk("vm_get_ref_view", "get_ref", Loc::Trait("VolatileMemory", "get_ref"));
+        s.type_params = vec!["BM"];
+        s.extra = slice_fields();
+        s.fns = vec![get_slice()];
+        s.positions = vec![("let#0", "slice")];
+        s.ctors = vec![("with_bitmap", vec![0, 1, 2])];
+        t.push(s);
+        let mut s = vk("vm_get_array_ref_view", "get_array_ref", Loc::Trait("VolatileMemory", "get_array_ref"));
+        s.type_params = vec!["BM"];
+        s.extra = slice_fields();
+        s.fns = vec![get_slice()];
+        s.positions = vec![("let#1", "slice")];
+        s.ctors = vec![("with_bitmap", vec![0, 1, 2, 3])];
+        t.push(s);
+        // get_atomic_ref / aligned_as_ref / aligned_as_mut: the slice has size_of::<T>() bytes and is checked against
+        // align_of::<T>() - both SYMBOLIC (of any other type expression they are unknown functions)
+        for (name, f) in [("vm_get_atomic_ref", "get_atomic_ref"), ("vm_aligned_as_ref", "aligned_as_ref"), ("vm_aligned_as_mut", "aligned_as_mut")] {
+            let mut s = vk(name, f, Loc::Trait("VolatileMemory", f));
+            s.extra = vec![ex("slice . addr", "sl_addr", Ty::Ptr), ex("slice . len ()", "sl_len", Ty::Int(64)),
+                           ex("size_of :: < T > ()", "size_t", Ty::Int(64)), ex("align_of :: < T > ()", "align_t", Ty::Int(64))];
+            s.fns = vec![get_slice(), ofn("check_alignment", "check_alignment", "N -> rres unit", Ty::Res(Box::new(Ty::Unit)))];
+            s.positions = vec![("let#0", "slice")];
+            t.push(s);
+        }
+        // VolatileRef::{store, load, to_slice}: ONE volatile access of the whole Packed<T> (width 0) at the guard's pointer;
+        // store marks (0, len()) afterwards
+        let vr = |f: &'static str| Loc::Impl { ty: "VolatileRef", tr: None, f };
+        for (name, f, guard) in [("vr_store", "store", "self . ptr_guard_mut ()"), ("vr_load", "load", "self . ptr_guard ()")] {
+            let mut s = vk(name, f, vr(f));
+            s.canon_params = vec!["v"];
+            s.drop_params = vec!["v"];
+            s.skip_as = vec![(guard, "guard")];
+            s.extra = vec![ex("guard . as_ptr ()", "guard_ptr", Ty::Ptr), ex("self . len ()", "len", Ty::Int(64))];
+            s.effects = vec!["write_volatile", "read_volatile", "mark_dirty"];
+            s.argsel = vec![("write_volatile", vec![0])];
+            t.push(s);
+        }
+        let mut s = vk("vr_to_slice_view", "to_slice", vr("to_slice"));
+        s.type_params = vec!["BM"];
+        s.extra = vec![ex("self . addr as * mut u8", "addr", Ty::Ptr), ex("size_of :: < T > ()", "size_t", Ty::Int(64)),
+                       bmx("self . bitmap . clone ()", "bm"), mm("self . mmap", "mmap")];
+        s.ctors = vec![("with_bitmap", vec![0, 1, 2, 3])];
+        t.push(s);
+        // VolatileArrayRef::{to_slice (bitmap, handle), ref_at (pointer, bitmap at the same byte offset, handle), load, store,
+        // From<VolatileSlice>}
+        let va = |f: &'static str| Loc::Impl { ty: "VolatileArrayRef", tr: None, f };
+        let mut s = vk("va_to_slice_view", "to_slice", va("to_slice"));
+        s.type_params = vec!["BM"];
+        s.extra = vec![bmx("self . bitmap . clone ()", "bm"), mm("self . mmap", "mmap")];
+        s.ctors = vec![("with_bitmap", vec![2, 3])];
+        t.push(s);
+        let mut s = vk("va_ref_at_view", "ref_at", va("ref_at"));
+        s.type_params = vec!["BM"];
+        s.extra = vec![addr_p(), ex("self . nelem", "nelem", Ty::Int(64)), ex("self . element_size ()", "esz", Ty::Int(64)), mm("self . mmap", "mmap")];
+        s.fns = vec![slice_at()];
+        s.ctors = vec![("with_bitmap", vec![0, 1, 2])];
+        t.push(s);
+        for (name, f) in [("va_load", "load"), ("va_store", "store")] {
+            let mut s = vk(name, f, va(f));
+            s.canon_params = if f == "store" { vec!["index", "value"] } else { vec!["index"] };
+            s.drop_params = vec!["value"];
+            s.effects = vec!["ref_at", f];
+            s.recv_arg = vec![f];
+            s.argsel = vec![("store", vec![])];
+            t.push(s);
+        }
+        let mut s = vk("va_from_slice", "from", Loc::Impl { ty: "VolatileArrayRef", tr: Some("From"), f: "from" });
+        s.type_params = vec!["BM"];
+        s.canon_params = vec!["slice"];
+        s.drop_params = vec!["slice"];
+        s.extra = vec![ex("slice . addr", "sl_addr", Ty::Ptr), ex("slice . len ()", "sl_len", Ty::Int(64)), bmx("slice . bitmap", "sl_bm"), mm("slice . mmap", "sl_mmap")];
+        s.ctors = vec![("with_bitmap", vec![0, 1, 2, 3])];
+        t.push(s);
+    }
     // ------------------------------------------------------------------ src/volatile_memory.rs, mod copy_slice_impl
     {
         let vfile = "src/volatile_memory.rs";
